@@ -64,6 +64,13 @@ Theorem C13_corner_sublists : forall (N : Num) (pts : list (@point N)) (t : T N)
 Proof. exact @corner_sublists. Qed.
 Print Assumptions C13_corner_sublists.
 
+(* Tier S: the rule of a single call, as a boolean predicate (judges each call of the same-object multi-call stream) *)
+Theorem C13_corner_call_rules : forall (N : Num) (pts : list (@point N)) (t : T N) ks,
+  filter_rule_holdsb pts ks t (filter_corner pts ks t) = true /\
+  select_rule_holdsb pts ks t (select_corner pts ks t) = true.
+Proof. exact @corner_call_rules. Qed.
+Print Assumptions C13_corner_call_rules.
+
 (* Tier S: both are idempotent (the decision never depends on the other knees) *)
 Theorem C13_corner_idempotent : forall (N : Num) (pts : list (@point N)) (t : T N) ks,
   filter_corner pts (filter_corner pts ks t) t = filter_corner pts ks t /\
